@@ -286,31 +286,52 @@ func runProperty(p propCfg, tier string) int {
 	replayed := 0
 	replayDir := filepath.Join(root, "replay", p.ID)
 	if fi, err := os.Stat(replayDir); err == nil && fi.IsDir() {
-		code, to, out := runTest(bins[false], []string{"-test.run", "^TestReplay$", "-test.v", "-test.timeout", "10m"},
-			[]string{"VERIF_REPLAY_DIR=" + replayDir, "VERIF_KNOWN=" + knownPath(), "VERIF_TIER=" + tier}, 11*time.Minute,
-			filepath.Join(logDir, p.ID+".replay.log"))
-		sc := bufio.NewScanner(strings.NewReader(out))
-		sc.Buffer(make([]byte, 1<<20), 1<<24)
-		for sc.Scan() {
-			line := sc.Text()
-			switch {
-			case strings.HasPrefix(line, "KNOWN-FINDING:"):
-				knownLines = append(knownLines, line)
-			case strings.HasPrefix(line, "REPLAY-VIOLATION"):
-				violations++
-				f := field(line, "file")
-				violationLines = append(violationLines, fmt.Sprintf("VIOLATION property=%s replay=%s", p.ID, f))
-				fmt.Fprintln(os.Stderr, line)
-			case strings.HasPrefix(line, "NOTE:"):
-				fmt.Println(line)
+		// once per distinct part environment (e.g. the registered-writer configurations of C05)
+		var envs [][]string
+		seenEnv := map[string]bool{}
+		for _, pt := range p.Parts {
+			k := strings.Join(pt.Env, " ")
+			if !seenEnv[k] {
+				seenEnv[k] = true
+				envs = append(envs, pt.Env)
+			}
+		}
+		seenLine := map[string]bool{}
+		for ei, penv := range envs {
+			logPath := filepath.Join(logDir, fmt.Sprintf("%s.replay%d.log", p.ID, ei))
+			env := append([]string{"VERIF_REPLAY_DIR=" + replayDir, "VERIF_KNOWN=" + knownPath(), "VERIF_TIER=" + tier}, penv...)
+			code, to, out := runTest(bins[false], []string{"-test.run", "^TestReplay$", "-test.v", "-test.timeout", "10m"}, env, 11*time.Minute, logPath)
+			sc := bufio.NewScanner(strings.NewReader(out))
+			sc.Buffer(make([]byte, 1<<20), 1<<24)
+			nv := 0
+			for sc.Scan() {
+				line := sc.Text()
+				if seenLine[line] {
+					continue
+				}
+				switch {
+				case strings.HasPrefix(line, "KNOWN-FINDING:"):
+					seenLine[line] = true
+					knownLines = append(knownLines, line)
+				case strings.HasPrefix(line, "REPLAY-VIOLATION"):
+					seenLine[line] = true
+					violations++
+					nv++
+					f := field(line, "file")
+					violationLines = append(violationLines, fmt.Sprintf("VIOLATION property=%s replay=%s", p.ID, f))
+					fmt.Fprintln(os.Stderr, line)
+				case strings.HasPrefix(line, "NOTE:"):
+					seenLine[line] = true
+					fmt.Fprintln(os.Stderr, line)
+				}
+			}
+			if to || (code != 0 && nv == 0) {
+				fmt.Fprintf(os.Stderr, "vcheck: replay run failed (exit %d, timeout=%v); see %s\n", code, to, logPath)
+				infra++
 			}
 		}
 		files, _ := filepath.Glob(filepath.Join(replayDir, "*.json"))
 		replayed = len(files)
-		if to || (code != 0 && violations == 0) {
-			fmt.Fprintf(os.Stderr, "vcheck: replay run failed (exit %d, timeout=%v); see %s\n", code, to, filepath.Join(logDir, p.ID+".replay.log"))
-			infra++
-		}
 	}
 
 	// 2. generated search
@@ -633,8 +654,17 @@ func doReplay(path string) int {
 	if err != nil {
 		fatal(2, "build failed: %v", err)
 	}
+	renv := []string{"VERIF_REPLAY=" + abs, "VERIF_KNOWN=" + knownPath(), "VERIF_NO_EXCLUDE=1"}
+	var cs struct {
+		Case struct {
+			Registry string `json:"registry"`
+		} `json:"case"`
+	}
+	if json.Unmarshal(b, &cs) == nil && cs.Case.Registry != "" {
+		renv = append(renv, "VERIF_REGISTRY="+cs.Case.Registry)
+	}
 	code, to, out := runTest(bin, []string{"-test.run", "^TestReplay$", "-test.v", "-test.timeout", "10m"},
-		[]string{"VERIF_REPLAY=" + abs, "VERIF_KNOWN=" + knownPath(), "VERIF_NO_EXCLUDE=1"}, 11*time.Minute,
+		renv, 11*time.Minute,
 		filepath.Join(root, ".build", "logs", "replay.log"))
 	fmt.Println(tailOf(out, 30))
 	if to {
